@@ -38,7 +38,7 @@ def generate(tier, rng):
             other = gen.labelled(rng.choice(gen.shapes(rng.choice([1, 2, 3]))), rng, False, base=100)
             labs = gen.tree_labels(t) + gen.tree_labels(other)[:2]
             pairs = [list(p) for p in itertools.product(labs, repeat=2)]
-            yield {"fam": "walk", "trees": [t, other], "pairs": pairs, "cls": rng.choice(["nm", "light", "eq", "falsy", "shadow"])}
+            yield {"fam": "walk", "trees": [t, other], "pairs": pairs, "cls": rng.choice(["nm", "light", "eq", "falsy", "shadow", "links"])}
     # scale: deep and wide trees; ancestor/descendant pairs far apart, a node with itself deep down
     for sh in gen.big_shapes(rng, tier):
         t = gen.labelled(sh, rng, True)
@@ -48,13 +48,13 @@ def generate(tier, rng):
         pairs = [[dl[-1], dl[-1]], [dl[0], dl[-1]], [dl[-1], dl[0]], [dl[h // 2], dl[-1]], [dl[-1], dl[h // 2]],
                  [dl[-2], dl[-1]], [dl[-1], dl[-2]], [dl[h // 2], dl[h // 2]], [labs[-1], dl[-1]], [dl[-1], labs[-1]]]
         pairs += [[rng.choice(labs), rng.choice(labs)] for _ in range(10)]
-        yield {"fam": "walk", "trees": [t], "pairs": pairs, "cls": rng.choice(["nm", "light", "eq", "falsy", "shadow"])}
+        yield {"fam": "walk", "trees": [t], "pairs": pairs, "cls": rng.choice(["nm", "light", "eq", "falsy", "shadow", "links"])}
     for _ in range(80 if tier == "quick" else 1000):
         n = rng.randrange(6, 16 if tier == "quick" else 41)
         t = gen.labelled(gen.random_shape(rng, n), rng, True)
         labs = gen.tree_labels(t)
         pairs = [[rng.choice(labs), rng.choice(labs)] for _ in range(30)]
-        yield {"fam": "walk", "trees": [t], "pairs": pairs, "cls": rng.choice(["nm", "light", "eq", "falsy", "shadow"])}
+        yield {"fam": "walk", "trees": [t], "pairs": pairs, "cls": rng.choice(["nm", "light", "eq", "falsy", "shadow", "links"])}
 
 
 def nontrivial(case):
